@@ -20,6 +20,11 @@ GenNext ==
     \/ \E k \in K : PollerObserve(k) /\ h' = Append(h, [ev |-> "PollerObserve", k |-> k])
     \/ \E k \in K : PollerDone(k) /\ h' = Append(h, [ev |-> "PollerDone", k |-> k])
 GenSpec == GenInit /\ [][GenNext]_gvars
+(* guided instance: b is executing, then its upstream a is re-run and fails -- the scheduler withdraws b's target while
+   b is still out on a worker (its `doing` entry goes, the unit does not) -- and from there everything *)
+Prefix == << [ev |-> "Run", x |-> B], E("Tick"), [ev |-> "Run", x |-> A], E("Tick"), [ev |-> "Reply", x |-> A, ok |-> FALSE, new |-> FALSE] >>
+GuidedNext == GenNext /\ (Len(h) < Len(Prefix) => h'[Len(h')] = Prefix[Len(h) + 1])
+GuidedSpec == GenInit /\ [][GuidedNext]_gvars
 View == vars
 Emit == PrintT(<<"SCHED", ToJson([h |-> h'])>>)
 EmitS10 == (RandomElement(1..10) = 1) => Emit
